@@ -4,17 +4,33 @@ use super::*;
 use verif_harness::conngen as g;
 use verif_harness::connrun::{Action, ConnCase, Finish, Mode};
 
-fn corpus_case(rng: &mut Rng, small: bool) -> ConnCase {
-    // conversations covering all framing kinds and error classes
+fn corpus_case(rng: &mut Rng, small: bool, sel: usize) -> ConnCase {
+    // conversations covering all framing kinds and error classes, round-robin over the index so
+    // that every kind is present in every run
+    let mut tries = 0;
     loop {
-        let c = match rng.below(9) {
+        tries += 1;
+        let kind = if tries <= 20 { sel % 10 } else { rng.below(10) };
+        let c = match kind {
+            9 => {
+                // a chunked body whose chunk data is not followed by CR LF, read by the application:
+                // how many payload bytes it obtains before the error depends on the segmentation
+                // (known finding of C13, see known_findings.json)
+                let mut bytes = b"POST /lossy HTTP/1.1\r\nHost: x\r\nTransfer-Encoding: chunked\r\n\r\n".to_vec();
+                let n = rng.range(2, 9);
+                bytes.extend_from_slice(format!("{:x}\r\n", n).as_bytes());
+                bytes.extend((0..n).map(|i| b'a' + i as u8));
+                bytes.extend_from_slice(b"XX\r\n0\r\n\r\n");
+                let a = Action { as_reader: 1, read_total: 64, buf: *rng.pick(&[1usize, 3, 64]), delay_ms: 0, fin: Finish::Respond(g::ok_resp(0, rng)) };
+                ConnCase { bytes, mode: Mode::HalfClose, hold: None, segs: vec![], script: vec![a], unix: false, intent: String::new() }
+            }
             0 => g::gen_mixed(rng),
             1 => g::gen_body(rng, false, false),
             2 => g::gen_body(rng, true, false),
             3 => g::gen_c18(rng),
             4 => g::gen_c12(rng),
             5 => {
-                let cl = *rng.pick(&["e400", "e417", "e505", "silent"]);
+                let cl = ["e400", "e417", "e505", "silent"][(sel / 10) % 4];
                 let raw: &[u8] = match cl {
                     "e400" => g::BAD_400[rng.below(g::BAD_400.len())],
                     "e417" => g::BAD_417[rng.below(g::BAD_417.len())],
@@ -59,7 +75,7 @@ fn obs_key(o: &Outcome) -> (Vec<String>, Vec<u8>, bool, Vec<String>) {
 /// time, and with random multi-way splits.  Every line carries `same=` (equal to the unsplit run).
 pub fn seg_family(id0: usize, rng: &mut Rng, out: &mut Vec<String>) {
     let small = rng.chance(1, 2);
-    let base = corpus_case(rng, small);
+    let base = corpus_case(rng, small, id0 / 1000);
     let cfg0 = default_cfg(rng);
     let c0 = ctl(base.clone());
     let o0 = execute(&c0, &cfg0);
@@ -105,7 +121,7 @@ pub fn seg_family(id0: usize, rng: &mut Rng, out: &mut Vec<String>) {
 
 /// C15 (request side): every prefix of a conversation followed by half-close, close or reset.
 pub fn cut_family(id0: usize, rng: &mut Rng, out: &mut Vec<String>) {
-    let base = corpus_case(rng, true);
+    let base = corpus_case(rng, true, id0 / 1000);
     let cfg0 = default_cfg(rng);
     let full = {
         let c0 = ctl(base.clone());
